@@ -1,22 +1,361 @@
-(** C01 — proofs, part 1: rotations and balance preserve the in-order leaves. *)
+(** C01 — proofs, part 1: the tree (node.go).
+    [set] keeps the search-tree order and the stored heights/sizes, never
+    panics, and acts on the in-order leaves as insertion into a sorted
+    association list; [get] is lookup in the in-order leaves. *)
 From Coq Require Import List ZArith NArith Lia Bool.
-From C33 Require Import C01.Keys C01.KeysFacts C01.Model.
+From C33 Require Import C01.Keys C01.KeysFacts C01.Model C01.Store C01.Spec C01.Inv.
 Import ListNotations.
 Open Scope Z_scope.
+
+(** ** association lists *)
+
+Lemma ins_app_l : forall k v a b,
+  (forall x, In x (map fst b) -> blt k x = true) -> ins k v (a ++ b) = ins k v a ++ b.
+Proof.
+  intros k v a b Hb. induction a as [|[k' v'] a IH]; simpl.
+  - destruct b as [|[k' v'] b]; [reflexivity|]. simpl.
+    assert (H : blt k k' = true) by (apply Hb; simpl; auto).
+    apply blt_iff in H. rewrite H. reflexivity.
+  - destruct (bcmp k k'); simpl; try reflexivity. rewrite IH. reflexivity.
+Qed.
+
+Lemma ins_app_r : forall k v a b,
+  (forall x, In x (map fst a) -> blt x k = true) -> ins k v (a ++ b) = a ++ ins k v b.
+Proof.
+  intros k v a b. induction a as [|[k' v'] a IH]; intros Ha; simpl; [reflexivity|].
+  assert (H : blt k' k = true) by (apply Ha; simpl; auto).
+  apply blt_iff in H. apply bcmp_lt_gt in H. rewrite H. f_equal. apply IH.
+  intros x Hx. apply Ha. simpl; auto.
+Qed.
+
+Lemma in_ins : forall k v m x, In x (map fst (ins k v m)) <-> x = k \/ In x (map fst m).
+Proof.
+  intros k v m x. induction m as [|[k' v'] m IH]; simpl.
+  - intuition.
+  - destruct (bcmp k k') eqn:E; simpl.
+    + apply bcmp_eq in E. subst. intuition.
+    + intuition.
+    + rewrite IH. intuition.
+Qed.
+
+Lemma sget_app : forall a b k,
+  sget (a ++ b) k = match sget a k with Some v => Some v | None => sget b k end.
+Proof.
+  intros a b k. induction a as [|[k' v'] a IH]; simpl; [reflexivity|].
+  destruct (beq k k'); [reflexivity|exact IH].
+Qed.
+
+Lemma sget_notin : forall m k, ~ In k (map fst m) -> sget m k = None.
+Proof.
+  induction m as [|[k' v'] m IH]; intros k H; simpl; [reflexivity|].
+  destruct (beq k k') eqn:E.
+  - apply beq_iff in E. subst. exfalso. apply H. simpl; auto.
+  - apply IH. intro. apply H. simpl; auto.
+Qed.
+
+Lemma sget_ins : forall m k v k',
+  sget (ins k v m) k' = if beq k k' then Some v else sget m k'.
+Proof.
+  induction m as [|[k0 v0] m IH]; intros k v k'; simpl.
+  - destruct (beq k' k) eqn:E; destruct (beq k k') eqn:E2; try reflexivity.
+    + apply beq_iff in E. subst. rewrite beq_refl in E2. discriminate.
+    + apply beq_iff in E2. subst. rewrite beq_refl in E. discriminate.
+  - assert (SYM : beq k' k = beq k k').
+    { destruct (beq k' k) eqn:E; destruct (beq k k') eqn:E2; try reflexivity.
+      - apply beq_iff in E. subst. rewrite beq_refl in E2. discriminate.
+      - apply beq_iff in E2. subst. rewrite beq_refl in E. discriminate. }
+    destruct (bcmp k k0) eqn:E; simpl.
+    + apply bcmp_eq in E. subst k0. rewrite SYM. destruct (beq k k'); reflexivity.
+    + rewrite SYM. reflexivity.
+    + rewrite IH. destruct (beq k k') eqn:E2; [|reflexivity].
+      apply beq_iff in E2. subst k'.
+      destruct (beq k k0) eqn:E3; [|reflexivity].
+      apply beq_iff in E3. subst k0. rewrite bcmp_refl in E. discriminate.
+Qed.
+
+(** ** basic tree facts *)
+
+Lemma keys_node : forall k h s l r, keys (Node k h s l r) = keys l ++ keys r.
+Proof. intros. unfold keys. simpl. apply map_app. Qed.
+
+Lemma elements_hd : forall t, exists v rest, elements t = (leftmost t, v) :: rest.
+Proof.
+  induction t as [k v|k h s l [vl [restl IHl]] r _]; simpl.
+  - eauto.
+  - rewrite IHl. simpl. eauto.
+Qed.
+
+Lemma leftmost_in : forall t, In (leftmost t) (keys t).
+Proof.
+  intros t. destruct (elements_hd t) as [v [rest H]]. unfold keys. rewrite H. simpl; auto.
+Qed.
+
+Lemma ordered_keyed : forall t, ordered t -> keyed t.
+Proof. induction t; simpl; intuition. Qed.
+
+Lemma sized_height_nonneg : forall t, sized t -> 0 <= height t.
+Proof.
+  induction t as [|k h s l IHl r IHr]; simpl; [lia|].
+  intros [Hl [Hr [Hh Hs]]]. specialize (IHl Hl). specialize (IHr Hr). lia.
+Qed.
+
+Lemma sized_size_pos : forall t, sized t -> 1 <= size t.
+Proof.
+  induction t as [|k h s l IHl r IHr]; simpl; [lia|].
+  intros [Hl [Hr [Hh Hs]]]. specialize (IHl Hl). specialize (IHr Hr). lia.
+Qed.
+
+Lemma sized_node_height_pos : forall k h s l r, sized (Node k h s l r) -> 1 <= h.
+Proof.
+  intros k h s l r [Hl [Hr [Hh _]]].
+  pose proof (sized_height_nonneg l Hl). pose proof (sized_height_nonneg r Hr). lia.
+Qed.
 
 Lemma calc_hs_elements : forall t, elements (calc_hs t) = elements t.
 Proof. destruct t; reflexivity. Qed.
 
-Lemma rotate_right_elements : forall t t', rotate_right t = Some t' -> elements t' = elements t.
+(** ** rotations *)
+
+Lemma rotate_right_inv : forall k h s lk lh ls ll lr r,
+  ordered (Node k h s (Node lk lh ls ll lr) r) ->
+  sized (Node lk lh ls ll lr) -> sized r ->
+  let t' := calc_hs (Node lk lh ls ll (calc_hs (Node k h s lr r))) in
+  rotate_right (Node k h s (Node lk lh ls ll lr) r) = Some t' /\
+  ordered t' /\ sized t' /\ elements t' = elements (Node k h s (Node lk lh ls ll lr) r).
 Proof.
-  intros t t' H. destruct t as [|k h s l r]; [discriminate|].
-  destruct l as [|lk lh ls ll lr]; [discriminate|].
-  simpl in H. inversion H; subst; clear H. simpl. rewrite app_assoc. reflexivity.
+  intros k h s lk lh ls ll lr r HO HSl HSr. simpl.
+  destruct HO as [[HOll [HOlr [Hll [Hlr Hlk]]]] [HOr [Hl [Hr Hk]]]].
+  destruct HSl as [HSll [HSlr _]].
+  rewrite keys_node in Hl.
+  assert (Hlkk : blt lk k = true).
+  { apply Hl. apply in_or_app. right. rewrite Hlk. apply leftmost_in. }
+  split; [reflexivity|]. split; [|split].
+  - repeat split; auto.
+    + intros x Hx. apply Hl. apply in_or_app. auto.
+    + intros x Hx. rewrite keys_node in Hx. apply in_app_or in Hx. destruct Hx as [Hx|Hx]; auto.
+      destruct (blt x lk) eqn:E; [|reflexivity].
+      pose proof (blt_trans x lk k E Hlkk) as C. rewrite (Hr x Hx) in C. discriminate.
+  - repeat split; auto.
+  - rewrite app_assoc. reflexivity.
 Qed.
 
-Lemma rotate_left_elements : forall t t', rotate_left t = Some t' -> elements t' = elements t.
+Lemma rotate_left_inv : forall k h s l rk rh rs rl rr,
+  ordered (Node k h s l (Node rk rh rs rl rr)) ->
+  sized l -> sized (Node rk rh rs rl rr) ->
+  let t' := calc_hs (Node rk rh rs (calc_hs (Node k h s l rl)) rr) in
+  rotate_left (Node k h s l (Node rk rh rs rl rr)) = Some t' /\
+  ordered t' /\ sized t' /\ elements t' = elements (Node k h s l (Node rk rh rs rl rr)).
 Proof.
-  intros t t' H. destruct t as [|k h s l r]; [discriminate|].
-  destruct r as [|rk rh rs rl rr]; [discriminate|].
-  simpl in H. inversion H; subst; clear H. simpl. rewrite app_assoc. reflexivity.
+  intros k h s l rk rh rs rl rr HO HSl HSr. simpl.
+  destruct HO as [HOl [[HOrl [HOrr [Hrl [Hrr Hrk]]]] [Hl [Hr Hk]]]].
+  destruct HSr as [HSrl [HSrr _]].
+  rewrite keys_node in Hr. simpl in Hk.
+  split; [reflexivity|]. split; [|split].
+  - repeat split; auto.
+    + intros x Hx. apply Hr. apply in_or_app. auto.
+    + intros x Hx. rewrite keys_node in Hx. apply in_app_or in Hx. destruct Hx as [Hx|Hx]; auto.
+      (* x in l: x < k <= rk-side; k = leftmost rl < rk *)
+      assert (Hkrk : blt k rk = true).
+      { apply Hrl. rewrite Hk. apply leftmost_in. }
+      apply (blt_trans x k rk); auto.
+  - repeat split; auto.
+  - rewrite <- app_assoc. reflexivity.
+Qed.
+
+(** ** balance *)
+
+Lemma ordered_same_elements_l : forall k h s l l' r h' s',
+  ordered (Node k h s l r) -> ordered l' -> elements l' = elements l ->
+  ordered (Node k h' s' l' r).
+Proof.
+  intros k h s l l' r h' s' [HOl [HOr [Hl [Hr Hk]]]] HOl' HE. simpl.
+  repeat split; auto. unfold keys. rewrite HE. exact Hl.
+Qed.
+
+Lemma ordered_same_elements_r : forall k h s l r r' h' s',
+  ordered (Node k h s l r) -> ordered r' -> elements r' = elements r -> leftmost r' = leftmost r ->
+  ordered (Node k h' s' l r').
+Proof.
+  intros k h s l r r' h' s' [HOl [HOr [Hl [Hr Hk]]]] HOr' HE HL. simpl.
+  repeat split; auto.
+  - unfold keys. rewrite HE. exact Hr.
+  - congruence.
+Qed.
+
+Lemma leftmost_of_elements : forall t t', elements t' = elements t -> leftmost t' = leftmost t.
+Proof.
+  intros t t' H. destruct (elements_hd t) as [v [rest E]]. destruct (elements_hd t') as [v' [rest' E']].
+  rewrite E, E' in H. congruence.
+Qed.
+
+Lemma balance_inv : forall k h s l r,
+  ordered (Node k h s l r) -> sized (Node k h s l r) ->
+  exists t', balance (Node k h s l r) = Some t' /\ ordered t' /\ sized t' /\
+             elements t' = elements (Node k h s l r).
+Proof.
+  intros k h s l r HO HS.
+  pose proof HS as [HSl [HSr _]].
+  pose proof (sized_height_nonneg l HSl) as Hhl. pose proof (sized_height_nonneg r HSr) as Hhr.
+  unfold balance.
+  destruct (height l - height r >? 1) eqn:B1.
+  - apply Z.gtb_lt in B1.
+    destruct l as [lk0 lv0|lk lh ls ll lr]; [simpl in B1; lia|].
+    cbn [calc_balance].
+    destruct (height ll - height lr >=? 0) eqn:B2.
+    + destruct (rotate_right_inv k h s lk lh ls ll lr r HO HSl HSr) as [E R]. eauto.
+    + assert (B2' : height ll - height lr < 0) by (destruct (Z.geb_spec (height ll - height lr) 0); [discriminate|lia]).
+      pose proof HSl as [HSll [HSlr _]].
+      pose proof (sized_height_nonneg ll HSll).
+      destruct lr as [lrk0 lrv0|lrk lrh lrs lrl lrr]; [simpl in B2'; lia|].
+      pose proof HO as [HOl _].
+      destruct (rotate_left_inv lk lh ls ll lrk lrh lrs lrl lrr HOl HSll HSlr) as [E [HO' [HS' HE']]].
+      rewrite E.
+      set (n' := calc_hs (Node lk lh ls ll lrl)) in *.
+      assert (HO2 : ordered (Node k h s (calc_hs (Node lrk lrh lrs n' lrr)) r)).
+      { eapply ordered_same_elements_l; eauto. }
+      cbn [calc_hs] in *.
+      match goal with |- context [rotate_right (Node k h s (Node ?a ?b ?c ?d ?e) r)] =>
+        destruct (rotate_right_inv k h s a b c d e r HO2 HS' HSr) as [E2 [HO3 [HS3 HE3]]] end.
+      eexists. split; [exact E2|]. split; [exact HO3|]. split; [exact HS3|].
+      rewrite HE3. cbn [elements] in *. rewrite HE'. reflexivity.
+  - destruct (height l - height r <? -1) eqn:B3.
+    + apply Z.ltb_lt in B3.
+      destruct r as [rk0 rv0|rk rh rs rl rr]; [simpl in B3; lia|].
+      cbn [calc_balance].
+      destruct (height rl - height rr <=? 0) eqn:B4.
+      * destruct (rotate_left_inv k h s l rk rh rs rl rr HO HSl HSr) as [E R]. eauto.
+      * assert (B4' : height rl - height rr > 0) by (destruct (Z.leb_spec (height rl - height rr) 0); [discriminate|lia]).
+        pose proof HSr as [HSrl [HSrr _]].
+        pose proof (sized_height_nonneg rr HSrr).
+        destruct rl as [rlk0 rlv0|rlk rlh rls rll rlr]; [simpl in B4'; lia|].
+        pose proof HO as [_ [HOr _]].
+        destruct (rotate_right_inv rk rh rs rlk rlh rls rll rlr rr HOr HSrl HSrr) as [E [HO' [HS' HE']]].
+        rewrite E.
+        set (n' := calc_hs (Node rk rh rs rlr rr)) in *.
+        assert (HO2 : ordered (Node k h s l (calc_hs (Node rlk rlh rls rll n')))).
+        { eapply ordered_same_elements_r; [exact HO|exact HO'|exact HE'|reflexivity]. }
+        cbn [calc_hs] in *.
+        match goal with |- context [rotate_left (Node k h s l (Node ?a ?b ?c ?d ?e))] =>
+          destruct (rotate_left_inv k h s l a b c d e HO2 HSl HS') as [E2 [HO3 [HS3 HE3]]] end.
+        eexists. split; [exact E2|]. split; [exact HO3|]. split; [exact HS3|].
+        rewrite HE3. cbn [elements] in *. rewrite HE'. reflexivity.
+    + eexists. split; [reflexivity|]. auto.
+Qed.
+
+(** ** set *)
+
+Lemma leftmost_after_ins : forall r r' k v,
+  elements r' = ins k v (elements r) -> blt k (leftmost r) = false -> leftmost r' = leftmost r.
+Proof.
+  intros r r' k v HE HB.
+  destruct (elements_hd r) as [v0 [rest E]]. destruct (elements_hd r') as [v1 [rest' E']].
+  rewrite E in HE. rewrite E' in HE. simpl in HE.
+  destruct (bcmp k (leftmost r)) eqn:C.
+  - apply bcmp_eq in C. inversion HE. congruence.
+  - apply blt_iff in C. congruence.
+  - inversion HE. reflexivity.
+Qed.
+
+Lemma set_inv : forall t k v,
+  ordered t -> sized t ->
+  exists t' u, set t k v = Some (t', u) /\ ordered t' /\ sized t' /\
+               elements t' = ins k v (elements t) /\
+               (u = true -> height t' = height t /\ size t' = size t).
+Proof.
+  induction t as [lk lv|nk h s l IHl r IHr]; intros k v HO HS.
+  - cbn [set elements ins].
+    destruct (bcmp k lk) eqn:C.
+    + apply bcmp_eq in C. subst lk. exists (Leaf k v), true. simpl. repeat split; auto.
+    + exists (Node lk 1 2 (Leaf k v) (Leaf lk lv)), false. split; [reflexivity|].
+      split; [|split; [|split]].
+      * simpl. repeat split; auto.
+        -- intros x [Hx|[]]. subst x. apply blt_iff. exact C.
+        -- intros x [Hx|[]]. subst x. apply blt_irrefl.
+      * simpl. repeat split; auto.
+      * reflexivity.
+      * discriminate.
+    + exists (Node k 1 2 (Leaf lk lv) (Leaf k v)), false. split; [reflexivity|].
+      split; [|split; [|split]].
+      * simpl. repeat split; auto.
+        -- intros x [Hx|[]]. subst x. apply blt_iff. apply bcmp_lt_gt. exact C.
+        -- intros x [Hx|[]]. subst x. apply blt_irrefl.
+      * simpl. repeat split; auto.
+      * reflexivity.
+      * discriminate.
+  - pose proof HO as [HOl [HOr [Hl [Hr Hk]]]]. pose proof HS as [HSl [HSr [Hh Hs]]].
+    cbn [set].
+    destruct (blt k nk) eqn:B.
+    + destruct (IHl k v HOl HSl) as [l' [u [E [HOl' [HSl' [HEl' Hu]]]]]]. rewrite E.
+      assert (HKl' : forall x, In x (keys l') -> blt x nk = true).
+      { intros x Hx. unfold keys in Hx. rewrite HEl' in Hx. apply in_ins in Hx.
+        destruct Hx as [Hx|Hx]; [subst x; exact B|apply Hl; exact Hx]. }
+      assert (HEt : elements l' ++ elements r = ins k v (elements l ++ elements r)).
+      { rewrite HEl'. symmetry. apply ins_app_l. intros x Hx.
+        apply (blt_le_trans k nk x); [exact B|apply Hr; exact Hx]. }
+      destruct u.
+      * destruct (Hu eq_refl) as [Hh' Hs'].
+        exists (Node nk h s l' r), true. split; [reflexivity|].
+        split; [|split; [|split]].
+        -- simpl. repeat split; auto.
+        -- simpl. repeat split; auto; congruence.
+        -- exact HEt.
+        -- intros _. split; reflexivity.
+      * assert (HO2 : ordered (calc_hs (Node nk h s l' r))) by (simpl; repeat split; auto).
+        assert (HS2 : sized (calc_hs (Node nk h s l' r))) by (simpl; repeat split; auto).
+        cbn [calc_hs] in *.
+        destruct (balance_inv _ _ _ _ _ HO2 HS2) as [t' [E2 [HO3 [HS3 HE3]]]].
+        rewrite E2. exists t', false. split; [reflexivity|].
+        split; [exact HO3|]. split; [exact HS3|]. split; [|discriminate].
+        rewrite HE3. exact HEt.
+    + destruct (IHr k v HOr HSr) as [r' [u [E [HOr' [HSr' [HEr' Hu]]]]]]. rewrite E.
+      assert (HKr' : forall x, In x (keys r') -> blt x nk = false).
+      { intros x Hx. unfold keys in Hx. rewrite HEr' in Hx. apply in_ins in Hx.
+        destruct Hx as [Hx|Hx]; [subst x; exact B|apply Hr; exact Hx]. }
+      assert (HLr' : nk = leftmost r').
+      { rewrite Hk. symmetry. eapply leftmost_after_ins; [exact HEr'|]. rewrite <- Hk. exact B. }
+      assert (HEt : elements l ++ elements r' = ins k v (elements l ++ elements r)).
+      { rewrite HEr'. symmetry. apply ins_app_r. intros x Hx.
+        apply (blt_le_trans x nk k); [apply Hl; exact Hx|exact B]. }
+      destruct u.
+      * destruct (Hu eq_refl) as [Hh' Hs'].
+        exists (Node nk h s l r'), true. split; [reflexivity|].
+        split; [|split; [|split]].
+        -- simpl. repeat split; auto.
+        -- simpl. repeat split; auto; congruence.
+        -- exact HEt.
+        -- intros _. split; reflexivity.
+      * assert (HO2 : ordered (calc_hs (Node nk h s l r'))) by (simpl; repeat split; auto).
+        assert (HS2 : sized (calc_hs (Node nk h s l r'))) by (simpl; repeat split; auto).
+        cbn [calc_hs] in *.
+        destruct (balance_inv _ _ _ _ _ HO2 HS2) as [t' [E2 [HO3 [HS3 HE3]]]].
+        rewrite E2. exists t', false. split; [reflexivity|].
+        split; [exact HO3|]. split; [exact HS3|]. split; [|discriminate].
+        rewrite HE3. exact HEt.
+Qed.
+
+(** ** get *)
+
+Lemma get_elements : forall t k, ordered t -> snd (get t k) = sget (elements t) k.
+Proof.
+  induction t as [lk lv|nk h s l IHl r IHr]; intros k HO.
+  - simpl. unfold beq. rewrite (bcmp_antisym lk k). destruct (bcmp lk k); reflexivity.
+  - destruct HO as [HOl [HOr [Hl [Hr Hk]]]]. cbn [get elements]. rewrite sget_app.
+    destruct (blt k nk) eqn:B.
+    + rewrite (IHl k HOl).
+      assert (N : sget (elements r) k = None).
+      { apply sget_notin. intro Hx. rewrite (Hr k Hx) in B. discriminate. }
+      rewrite N. destruct (sget (elements l) k); reflexivity.
+    + assert (N : sget (elements l) k = None).
+      { apply sget_notin. intro Hx. rewrite (Hl k Hx) in B. discriminate. }
+      rewrite N. rewrite <- (IHr k HOr). destruct (get r k). reflexivity.
+Qed.
+
+Theorem get_set : forall t k v t' u k',
+  ordered t -> sized t -> set t k v = Some (t', u) ->
+  snd (get t' k') = if beq k k' then Some v else snd (get t k').
+Proof.
+  intros t k v t' u k' HO HS E.
+  destruct (set_inv t k v HO HS) as [t2 [u2 [E2 [HO2 [_ [HE _]]]]]].
+  rewrite E in E2. inversion E2; subst t2 u2.
+  rewrite (get_elements t' k' HO2), (get_elements t k' HO), HE. apply sget_ins.
 Qed.
